@@ -26,6 +26,7 @@ import (
 	"sort"
 	"strconv"
 	"strings"
+	"sync/atomic"
 	"time"
 
 	"git.metabarcoding.org/obitools/obitools4/obitools4/pkg/obiformats"
@@ -314,17 +315,13 @@ func (sh c01Shapes) evRead(f *c01File, via string, workers int) c01Event {
 		ev.Got, ev.Serials = []int{}, []int{}
 		return ev
 	}
-	f0 := fatalCount()
 	orders, recs, st := c01DrainFor(180*time.Second, it)
 	if st == "timeout" {
 		ev.Status = 2
-		if fatalCount() > f0 {
-			ev.Status = 1
-		}
-		ev.Why = st + " " + strings.Join(fatalMessages(), ";")
+		ev.Why = "the reader did not finish: " + strings.Join(fatalMessages(), ";")
 	} else if st != "" {
 		ev.Status = 1
-		ev.Why = st
+		ev.Why = st + ": " + strings.Join(fatalMessages(), ";")
 	}
 	ev.Orders = append(ev.Orders, orders...)
 	sh.reduce(f.fmt, recs, &ev)
@@ -401,11 +398,17 @@ func c01DecodeOutput(out []byte) ([]c01Rec, string) {
 	return recs, ""
 }
 
+var c01HungCmds int64
+
 func (sh c01Shapes) evCmd(f *c01File, bindir, via string, workers int) c01Event {
 	ev := c01Event{Op: "cmd", Fmt: f.fmt, Via: via, Workers: workers, Size: len(f.data), Cls: f.cls, Target: f.target, Recs: f.recs,
 		Cuts: [][]int{}, Orders: []int{}, Got: []int{}, Serials: []int{}, File: f.n}
 	args := []string{"--max-cpu", strconv.Itoa(workers)}
-	ctx, cancel := context.WithTimeout(context.Background(), 240*time.Second)
+	patience := 120 * time.Second
+	if atomic.LoadInt64(&c01HungCmds) >= 2 {
+		patience = 10 * time.Second
+	}
+	ctx, cancel := context.WithTimeout(context.Background(), patience)
 	defer cancel()
 	var stdin *os.File
 	switch via {
@@ -432,6 +435,7 @@ func (sh c01Shapes) evCmd(f *c01File, bindir, via string, workers int) c01Event 
 	cmd.Stderr = &stderr
 	out, err := cmd.Output()
 	if ctx.Err() != nil {
+		atomic.AddInt64(&c01HungCmds, 1)
 		ev.Status = 2
 		ev.Why = "timeout"
 		return ev
@@ -468,6 +472,7 @@ func recordC01(env *Env) {
 		target, offset int
 		at, total      int
 		multi          bool
+		huge           bool
 	}
 	var plans []plan
 	for _, format := range []string{"fasta", "fastq", "genbank", "embl"} {
@@ -527,6 +532,15 @@ func recordC01(env *Env) {
 			plans = append(plans, plan{fmt: format, target: c.s, offset: c.o, at: 2*c01MiB - 1 - env.rng.Intn(3000), total: 4*c01MiB + 200000, multi: true})
 		}
 	}
+	// the 128 MiB buffer of ReadGenbank / ReadEMBL (thorough tier only: one file per format)
+	if env.optInt("flat128", 0) == 1 {
+		for _, format := range []string{"genbank", "embl"} {
+			shapes := sh[format]
+			s := shapes[1+env.rng.Intn(len(shapes)-1)]
+			plans = append(plans, plan{fmt: format, target: s.k, offset: env.rng.Intn(len(s.text)), at: 128*c01MiB - 1,
+				total: 128*c01MiB + 50000, huge: true})
+		}
+	}
 	dir := env.opt("dir", c01Tmp)
 	os.MkdirAll(dir, 0o755)
 	seeds := make([]int64, len(plans))
@@ -559,15 +573,26 @@ func recordC01(env *Env) {
 			fmt.Fprintln(os.Stderr, err)
 			os.Exit(2)
 		}
-		var zb bytes.Buffer
-		zw, _ := gzip.NewWriterLevel(&zb, gzip.BestSpeed)
-		zw.Write(f.data)
-		zw.Close()
-		os.WriteFile(f.gz, zb.Bytes(), 0o644)
+		if !p.huge {
+			var zb bytes.Buffer
+			zw, _ := gzip.NewWriterLevel(&zb, gzip.BestSpeed)
+			zw.Write(f.data)
+			zw.Close()
+			os.WriteFile(f.gz, zb.Bytes(), 0o644)
+		}
 		defer os.Remove(f.path)
 		defer os.Remove(f.gz)
 
 		flat := p.fmt == "genbank" || p.fmt == "embl"
+		if p.huge {
+			f.cls = p.fmt + "/128MiB"
+			env.emit(sh.evChunks(f, 128*c01MiB, "whole"))
+			env.emit(sh.evRead(f, "file", 4))
+			if bindir != "" {
+				env.emit(sh.evCmd(f, bindir, "file", 4))
+			}
+			return
+		}
 		env.emit(sh.evChunks(f, c01MiB, c01Variants[i%len(c01Variants)]))
 		ws := []int{1, 2, 3, 4, 8}
 		if !flat || i%4 == 0 { // ReadGenbank / ReadEMBL allocate their 128 MiB buffer
